@@ -350,7 +350,7 @@ func checkC01(c *Ctx) {
 			fwd, _ := structLitFieldValue(box, fBoxFwd)
 			okFwd := false
 			var sendOverwrite *ssa.Store
-			for _, st := range storesToField([]*ssa.Function{silent}, t.fSend) {
+			for _, st := range storesToField(deepFuncs(silent), t.fSend) {
 				if _, isLit := strip(st.Val).(*ssa.MakeClosure); isLit {
 					if rcv, meth, ok := boundMethod(st.Val); ok && meth.Name() == "Send" {
 						_ = rcv
@@ -390,7 +390,7 @@ func checkC01(c *Ctx) {
 			okHM := false
 			for _, in := range instrsOf(ebsHM) {
 				if cl, ok := in.(*ssa.Call); ok {
-					if cal := staticCallee(&cl.Call); cal != nil && cal.Name() == "HandleMessage" && isNamed(cal.Signature.Recv().Type(), PkgMsg, "Box") && isLoadOfField(cl.Call.Args[0], fEmbBox) && strip(cl.Call.Args[1]) == ssa.Value(ebsHM.Params[1]) {
+					if cal := staticCallee(&cl.Call); cal != nil && cal.Name() == "HandleMessage" && isNamed(cal.Signature.Recv().Type(), PkgMsg, "Box") && isLoadOfField(cl.Call.Args[0], fEmbBox) && strip(cl.Call.Args[1]) == strip(ebsHM.Params[1]) {
 						okHM = true
 					}
 				}
